@@ -241,14 +241,16 @@ class FakeSnowflakeCursor:
 
         sql = transformed.sql(dialect="duckdb")
 
+        # the seed is set by a separate leading statement, which isn't part of the sql that gets described
+        seed_sql = ""
         if transformed.find(exp.Select) and (seed := transformed.args.get("seed")):
-            sql = f"SELECT setseed({seed}); {sql}"
+            seed_sql = f"SELECT setseed({seed}); "
 
         result_sql = None
 
         try:
-            self._log_sql(sql, params)
-            self._duck_conn.execute(sql, params)
+            self._log_sql(seed_sql + sql, params)
+            self._duck_conn.execute(seed_sql + sql, params)
         except duckdb.BinderException as e:
             msg = e.args[0]
             raise snowflake.connector.errors.ProgrammingError(msg=msg, errno=2043, sqlstate="02000") from None
